@@ -54,7 +54,7 @@ for p in $PROPS; do
   echo "  $p: exit=$rc ${rule}"
   RESULTS="$RESULTS\"$p\": {\"exit\": $rc, \"first_rule\": \"$rule\"}, "
 done
-git -C /repo checkout -- .
+git -C /repo checkout -- . && git -C /repo clean -fdq
 rm -rf /verif/evidence && mv /verif/.work/evidence.keep /verif/evidence
 git -C /repo status --short | grep -v '^??' && echo "WARNING: /repo not clean"
 find /verif/replays -name '*.json' -newer "$OUT/patch.diff" -exec cp {} "$OUT/" \; 2>/dev/null
